@@ -521,6 +521,7 @@ def checkCls (ans : Fields) : Verdict :=
     | some c => { (v.add false "S:C14") with stats := v.stats ++ s!" refdiff@{hexStr c}" }
     | none => v
   let v := v.add (getF ans "SAME" == "1") "S:C14"
+  let v := if getF ans "PANICS" != "" then { (v.add false "S:C14") with stats := v.stats ++ s!" lookup-panics@{getF ans "PANICS"}" } else v
   -- C15: every bracket character of the reference has class ON in the crate's table
   let crateCls (c : Nat) : BidiClass := ((rs.find? (fun r => r.1 ≤ c && c ≤ r.2.1)).map (·.2.2)).getD .L
   let notOn := Ref.brackets16.find? (fun b => crateCls b.1 != .ON)
@@ -539,6 +540,7 @@ def checkBrk (ans : Fields) : Verdict :=
   let v : Verdict := { stats := s!"brackets={es.length}" }
   let none_ := (getF ans "NONE").toNat?.getD 0
   let v := v.add (es.length + none_ == 1112064) "M:brk"
+  let v := v.add (((getF ans "B").splitOn "PANIC").length == 1) "S:C15"
   -- Model: the same `some` set (the Model is `none` elsewhere iff the counts agree and each listed agrees)
   let v := v.add (es.all (fun e => bracket e.1 == some { opening := e.2.2, isOpen := e.2.1 })) "M:brk"
   let modelSome := (Gen.pairsTable.flatMap (fun p => [p.1, p.2.1])).eraseDups
